@@ -89,9 +89,16 @@ def check_datetime(ctx, t: int, bt):
         if got != want or len(m.group(7) or "") > 24:
             ctx.violation(what="str fields", ticks=t, observed=s, required=str(want))
     # every way of building the same instant shows the same fields, text and repr: the public constructor with calendar
-    # fields, with only a microsecond (the tick value is then the rounded one), from datetime / hightime objects
+    # fields, with only a microsecond (the tick value is then the rounded one), from datetime / hightime objects, through
+    # nitypes.time.convert_datetime, from a tick count given as a NumPy integer
+    from nitypes.time import convert_datetime
+    import numpy as np
+    npt = [T for T in (np.int64, np.uint64) if np.iinfo(T).min <= t <= np.iinfo(T).max]
     import hightime as ht
-    builders = [("fields", lambda: DT(*want, tzinfo=dt.timezone.utc)),
+    builders = [(f"from_ticks({T.__name__})", (lambda T=T: DT.from_ticks(T(t)))) for T in npt]
+    builders += [("convert_datetime(datetime)", lambda: convert_datetime(DT, dt.datetime(*want[:7], tzinfo=dt.timezone.utc))),
+                 ("convert_datetime(hightime)", lambda: convert_datetime(DT, ht.datetime(*want[:7], femtosecond=want[7], yoctosecond=want[8], tzinfo=dt.timezone.utc))),
+                 ("fields", lambda: DT(*want, tzinfo=dt.timezone.utc)),
                 ("microsecond only", lambda: DT(*want[:7], tzinfo=dt.timezone.utc)),
                 ("hightime", lambda: DT(ht.datetime(*want[:7], femtosecond=want[7], yoctosecond=want[8], tzinfo=dt.timezone.utc))),
                 ("datetime", lambda: DT(dt.datetime(*want[:7], tzinfo=dt.timezone.utc)))]
@@ -101,9 +108,15 @@ def check_datetime(ctx, t: int, bt):
             ctx.violation(what="constructor refused valid fields", how=label, ticks=t, observed=show(o2), required="a DateTime")
             continue
         y = o2[1]
-        canon = DT.from_ticks(y.ticks)
-        obs = (str(y), repr(y), (y.year, y.month, y.day, y.hour, y.minute, y.second, y.microsecond, y.femtosecond, y.yoctosecond))
-        req = (str(canon), repr(canon), expected_fields(y.ticks))
+        yt = outcome(lambda: int(y.ticks))
+        if yt[0] != "ok" or type(y.ticks) is not int:
+            ctx.violation(what="a DateTime built by the constructor does not hold a Python int tick count", how=label, ticks=t,
+                          observed=f"{type(y.ticks).__name__} {show(yt)}", required="int")
+            continue
+        canon = DT.from_ticks(yt[1])
+        oo = outcome(lambda: (str(y), repr(y), (y.year, y.month, y.day, y.hour, y.minute, y.second, y.microsecond, y.femtosecond, y.yoctosecond)))
+        obs = oo[1] if oo[0] == "ok" else show(oo)
+        req = (str(canon), repr(canon), expected_fields(yt[1]))
         if obs != req:
             ctx.violation(what="a DateTime built by the constructor shows other text / fields than its tick value has", how=label, ticks=y.ticks,
                           observed=str(obs)[:300], required=str(req)[:300])
@@ -124,8 +137,17 @@ def td_text_value(s: str):
 
 
 def check_timedelta(ctx, t: int, bt):
+    import numpy as np
     x = bt.TimeDelta.from_ticks(t)
     f = (x.days, x.seconds, x.microseconds, x.femtoseconds, x.yoctoseconds)
+    # the same tick count given as a NumPy integer scalar shows the same fields and text
+    for T in (np.int64, np.uint64, np.int32):
+        if np.iinfo(T).min <= t <= np.iinfo(T).max:
+            o = outcome(lambda: (lambda y: ((y.days, y.seconds, y.microseconds, y.femtoseconds, y.yoctoseconds), str(y)))(bt.TimeDelta.from_ticks(T(t))))
+            if o != ("ok", (f, str(x))):
+                ctx.violation(what="timedelta fields of a tick count given as a NumPy integer", ticks=t, type=T.__name__, observed=show(o)[:200],
+                              required=str((f, str(x)))[:200])
+                break
     ok = 0 <= f[1] < 86400 and 0 <= f[2] < 10**6 and 0 <= f[3] < 10**9 and 0 <= f[4] < 10**9
     total = ((f[0] * 86400 + f[1]) * 10**6 + f[2]) * 10**18 + f[3] * 10**9 + f[4]
     if not ok or total != t * 10**24 // T64:
